@@ -4,9 +4,10 @@ CONSTANTS
   MaxTok = 6
   MaxIdx = 2
   AllowAgg = TRUE
-  DevOn = {"EmptyBraceNoFocus", "BraceNoReset", "UnionCover", "AutoBackZero", "ReplaceEndOnly"}
+  DevOn = {"CompositeKeepsNew", "SharedIncompleteType", "EmptyBraceNoFocus", "BraceNoReset", "UnionCover", "AutoBackZero", "ReplaceEndOnly"}
   Salt = 0
   EmitCases = TRUE
+  FormsOn = {"plain"}
   Prune = TRUE
 INVARIANTS TypeOK StackDepth ListSortedDisjoint Refinement Emit
 CHECK_DEADLOCK FALSE
